@@ -76,11 +76,37 @@ class Obj:
 
     def get(self, name):
         if name not in self._attrs:
+            if getattr(self, '_lenient', False):
+                return Unknown(f'{self._name}.{name}', self)
             raise Unsupported(f'{self._name} has no modelled attribute {name!r}')
         return self._attrs[name]
 
     def __repr__(self):
         return f'Obj({self._name})'
+
+
+class Unknown:
+    """State the sidecar does not know about (e.g. an attribute added by a change): it may hold anything.
+    Every observation of it yields a fresh symbolic result, so obligations must hold whatever it contains
+    (a sound over-approximation).  Optional hook `owner._on_unknown(interp, st, name)` lets a unit object to
+    any dependence on hidden instance state."""
+
+    def __init__(self, name, owner=None):
+        self.name, self.owner = name, owner
+
+    def __repr__(self):
+        return f'Unknown({self.name})'
+
+    def note(self, interp, st):
+        st.emit('unknown_state_used', name=self.name)
+        hook = getattr(self.owner, '_on_unknown', None)
+        if hook is not None:
+            hook(interp, st, self.name)
+
+    def vf_getattr(self, interp, st, name):
+        self.note(interp, st)
+        u = Unknown(f'{self.name}.{name}', self.owner)
+        yield st, Model(u.name, lambda i, s, a, k: iter([(s, Unknown(u.name + '()', self.owner))]))
 
 
 class PyRef:
@@ -409,6 +435,9 @@ class Interp:
                 if tr is not None:
                     return tr(v.z)
                 return z3.BoolVal(True)
+        if isinstance(v, Unknown):
+            v.note(self, st)
+            return z3.Bool(sym.fresh_name('unknown_truth'))
         if isinstance(v, (Obj, Model, Closure, ExcClass, Bound)):
             return z3.BoolVal(True)
         raise Unsupported(f'truth of {v!r}')
@@ -445,7 +474,19 @@ class Interp:
         yield st, node.value
 
     def ev_Name(self, node, st):
-        yield st, st.lookup(node.id)
+        try:
+            yield st, st.lookup(node.id)
+        except Unsupported:
+            # a module-level constant of the file the unit comes from (literal values only)
+            rel = getattr(self, 'relpath', None)
+            if rel is None:
+                raise
+            from . import source
+            try:
+                v = ast.literal_eval(source.module_assign(rel, node.id))
+            except Exception:
+                raise Unsupported(f'unbound name {node.id!r}')
+            yield st, v
 
     def ev_NamedExpr(self, node, st):
         for s, v in self.ev(node.value, st):
